@@ -56,6 +56,28 @@ func (x *xtr) polyBinder() string {
 	return x.typeBinders(x.poly, x.tparams, x.inhabitedBinders())
 }
 
+// the type-parameter binders of a loop definition: only the parameters its variables (and the function's
+// result) mention, so that every one of them is determined by the explicit arguments
+func (x *xtr) loopBinder(inv, state []string) string {
+	tv := map[string]bool{}
+	for _, n := range append(append([]string{}, inv...), state...) {
+		x.env[n].tvars(tv)
+	}
+	for _, r := range x.results {
+		r.tvars(tv)
+	}
+	for _, ex := range x.extras {
+		x.env[ex].tvars(tv)
+	}
+	var ps []string
+	for _, p := range x.tparams {
+		if tv[p] {
+			ps = append(ps, p)
+		}
+	}
+	return x.typeBinders(x.poly, ps, x.inhabitedBinders())
+}
+
 // [Inhabited T] binders for the opaque type parameters: when a struct of the spec has type parameters
 // (its zero value and `Inhabited` instance need them) or a zero value of such a type was written
 func (x *xtr) inhabitedBinders() bool {
@@ -222,7 +244,7 @@ func (x *xtr) forStmt(s *ast.ForStmt, rest func() string) string {
 		}
 		sig := strings.Join(append([]string{"Nat"}, sty...), " → ")
 		text := fmt.Sprintf("def %s %s%s : %s → Go.Ctl %s %s\n  | %s => Go.Ctl.outOfFuel\n  | %s =>\n%s\n",
-			info.name, x.polyBinder(), x.binders(inv), sig, parenT(x.tupleType(state)), parenT(x.rhoLean()),
+			info.name, x.loopBinder(inv, state), x.binders(inv), sig, parenT(x.tupleType(state)), parenT(x.rhoLean()),
 			strings.Join(append([]string{"0"}, us...), ", "),
 			strings.Join(append([]string{"fuel + 1"}, splitIdents(state)...), ", "),
 			indent(body, 2))
@@ -353,7 +375,7 @@ func (x *xtr) rangeStmt(s *ast.RangeStmt, rest func() string) string {
 		consPat = append(consPat, splitIdents(state)...)
 		x.env = outerEnv
 		text := fmt.Sprintf("def %s %s%s : %s → Go.%s %s %s\n  | %s => Go.%s.next %s\n  | %s =>\n%s\n",
-			info.name, x.polyBinder(), x.binders(inv), strings.Join(sigParts, " → "), kind, parenT(x.tupleType(state)), parenT(x.rhoLean()),
+			info.name, x.loopBinder(inv, state), x.binders(inv), strings.Join(sigParts, " → "), kind, parenT(x.tupleType(state)), parenT(x.rhoLean()),
 			strings.Join(nilPat, ", "), kind, tuple, strings.Join(consPat, ", "), indent(body, 2))
 		text = strings.Replace(text, "  : ", " : ", 1)
 		x.defs = append(x.defs, genFunc{name: info.name, text: fmt.Sprintf("/- loop at line %d of %s -/\n", x.pos(s).Line, x.sp.File) + text})
@@ -591,7 +613,14 @@ func translateExt(fset *token.FileSet, load fileLoader, sp spec, known map[strin
 	x := &xtr{fset: fset, sp: sp, env: map[string]*xty{}, structs: map[string]*xstruct{}, consts: map[string]xval{},
 		shared: map[string]bool{}, loops: map[ast.Stmt]*loopInfo{}, ptrParams: map[string]bool{}, params: map[string]bool{}, prims: map[string]bool{},
 		aliases: map[string]*xty{}, known: known, uses: map[string]useSpec{}, opaque: map[string]string{},
-		ordParams: map[string]bool{}, methods: map[string]*xmethod{}}
+		ordParams: map[string]bool{}, methods: map[string]*xmethod{}, capVars: map[string]string{}, fnBody: fd.Body}
+	for _, cv := range sp.CapVars {
+		nt := strings.SplitN(cv, "=", 2)
+		if len(nt) != 2 {
+			fail(token.Position{Filename: sp.File}, "spec.CapVars entry %q", cv)
+		}
+		x.capVars[nt[0]] = nt[1]
+	}
 	for _, o := range sp.Opaque {
 		nt := strings.SplitN(o, "=", 2)
 		if len(nt) != 2 {
@@ -659,9 +688,12 @@ func translateExt(fset *token.FileSet, load fileLoader, sp spec, known map[strin
 			x.aliases[ss.Name] = x.goTy(te)
 			continue
 		}
-		xs := &xstruct{name: ss.Name, caps: map[string]bool{}}
+		xs := &xstruct{name: ss.Name, caps: map[string]bool{}, drop: map[string]bool{}}
 		for _, c := range ss.Caps {
 			xs.caps[c] = true
+		}
+		for _, c := range ss.Drop {
+			xs.drop[c] = true
 		}
 		tv := map[string]bool{}
 		only := map[string]bool{}
@@ -670,7 +702,7 @@ func translateExt(fset *token.FileSet, load fileLoader, sp spec, known map[strin
 		}
 		for _, fl := range st.Fields.List {
 			for _, n := range fl.Names {
-				if len(ss.Only) > 0 && !only[n.Name] {
+				if len(ss.Only) > 0 && !only[n.Name] || xs.drop[n.Name] {
 					continue
 				}
 				delete(only, n.Name)
@@ -835,6 +867,10 @@ func translateExt(fset *token.FileSet, load fileLoader, sp spec, known map[strin
 	for _, n := range x.inPlaceParams(fd) {
 		x.extras = append(x.extras, n)
 	}
+	if sp.Frag != nil {
+		// the parameters of a fragment are variables of the enclosing function; what it changes is named in Results
+		x.extras = nil
+	}
 	var oracleNames []string
 	for n, ty := range x.env {
 		if ty.k == kFunc && ty.oracle {
@@ -969,7 +1005,76 @@ func fragmentFunc(fset *token.FileSet, fd *ast.FuncDecl, sp spec) *ast.FuncDecl 
 		fail(fset.Position(fd.Pos()), "fragment signature: %v", err)
 	}
 	nf := pf.Decls[0].(*ast.FuncDecl)
-	nf.Body.List = append(append([]ast.Stmt{}, found...), nf.Body.List...)
+	// a `return` inside the fragment leaves the enclosing function (or closure).  Only the statement text
+	// given as EarlyReturn is accepted, and it means: the fragment ends here with the current values of
+	// its Results.  Any other return is an error.
+	final := nf.Body.List[0].(*ast.ReturnStmt)
+	var rewrite func(ss []ast.Stmt) []ast.Stmt
+	one := func(s ast.Stmt) ast.Stmt {
+		if s == nil {
+			return nil
+		}
+		return rewrite([]ast.Stmt{s})[0]
+	}
+	blk := func(b *ast.BlockStmt) *ast.BlockStmt {
+		if b == nil {
+			return nil
+		}
+		c := *b
+		c.List = rewrite(b.List)
+		return &c
+	}
+	rewrite = func(ss []ast.Stmt) []ast.Stmt {
+		out := make([]ast.Stmt, 0, len(ss))
+		for _, s := range ss {
+			switch t := s.(type) {
+			case *ast.ReturnStmt:
+				if fr.EarlyReturn == "" || line(t) != fr.EarlyReturn {
+					fail(fset.Position(t.Pos()), "return inside the fragment of %s (fragSpec.EarlyReturn is %q)", sp.Func, fr.EarlyReturn)
+				}
+				out = append(out, &ast.ReturnStmt{Return: t.Return, Results: final.Results})
+			case *ast.BlockStmt:
+				out = append(out, blk(t))
+			case *ast.IfStmt:
+				c := *t
+				c.Body = blk(t.Body)
+				c.Else = one(t.Else)
+				out = append(out, &c)
+			case *ast.ForStmt:
+				c := *t
+				c.Body = blk(t.Body)
+				out = append(out, &c)
+			case *ast.RangeStmt:
+				c := *t
+				c.Body = blk(t.Body)
+				out = append(out, &c)
+			case *ast.SwitchStmt:
+				c := *t
+				nb := *t.Body
+				nb.List = nil
+				for _, cl := range t.Body.List {
+					cc := *cl.(*ast.CaseClause)
+					cc.Body = rewrite(cc.Body)
+					nb.List = append(nb.List, &cc)
+				}
+				c.Body = &nb
+				out = append(out, &c)
+			case *ast.TypeSwitchStmt, *ast.SelectStmt, *ast.LabeledStmt:
+				ast.Inspect(t, func(n ast.Node) bool {
+					if r, ok := n.(*ast.ReturnStmt); ok {
+						fail(fset.Position(r.Pos()), "return inside a %T of the fragment of %s", t, sp.Func)
+					}
+					_, isLit := n.(*ast.FuncLit)
+					return !isLit
+				})
+				out = append(out, s)
+			default:
+				out = append(out, s)
+			}
+		}
+		return out
+	}
+	nf.Body.List = append(rewrite(found), nf.Body.List...)
 	return nf
 }
 
@@ -1018,7 +1123,7 @@ func (x *xtr) inPlaceParams(fd *ast.FuncDecl) []string {
 		return true
 	})
 	for n := range hit {
-		if reassigned[n] {
+		if reassigned[n] && x.sp.Frag == nil {
 			x.bad(fd, "parameter %s is both reassigned and written in place", n)
 		}
 	}
